@@ -42,6 +42,8 @@ def fields_equal(p: Path, a, b, names):
 PROP_REPLAY = lambda w: {"code": """
 from pyxel.detectors import Geometry, Characteristics, Environment, WavelengthHandling
 objs = [Geometry(row=3, col=4, total_thickness=10.0, pixel_vert_size=2.0, pixel_horz_size=3.0, pixel_scale=1.5), Geometry(row=1, col=1),
+        Geometry(row=2, col=2, total_thickness=0.0, pixel_vert_size=0.0, pixel_horz_size=0.0, pixel_scale=0.0),
+        Characteristics(quantum_efficiency=0.0, charge_to_volt_conversion=0.0, pre_amplification=0.0, full_well_capacity=0, adc_bit_resolution=4, adc_voltage_range=(0.0, 0.0)),
         Characteristics(quantum_efficiency=0.5, charge_to_volt_conversion=1e-6, pre_amplification=2.0, full_well_capacity=1000, adc_bit_resolution=16, adc_voltage_range=(0.0, 5.0)),
         Characteristics(), Characteristics(adc_bit_resolution=12, adc_voltage_range=(5.0, 0.0)), Characteristics(adc_voltage_range=(3.3, -3.3)), Environment(temperature=100.0, wavelength=600.0), Environment(), Environment(wavelength=WavelengthHandling(cut_on=400.0, cut_off=800.0, resolution=10))]
 bad = []
@@ -74,16 +76,15 @@ def props(u: Unit):
                 holder["obj"] = obj
                 ex.orig = obj
                 return [obj], {}
-            ps = u.paths(td, setup, cfg, label=f"{label}.to_dict[{sub}]")
+            ps = u.paths(td, setup, cfg, label=f"{label}.to_dict[{sub}]", then=lambda ex, v: ex.call_function(VFunc(fd, VClass(ci)), [v], {}, Frame(None, fd.module)))
             for p in ps:
                 if p.kind != "return":
                     u.oblige(p, f"props.roundtrip[{label}:{sub}].to_dict_no_raise", False, {"exc": p.exc_name()}, PROP_REPLAY)
                     continue
-                try:
-                    back = p.ex.call_function(VFunc(fd, VClass(ci)), [p.value], {}, Frame(None, fd.module))
-                except PyExc as pe:
-                    u.oblige(p, f"props.roundtrip[{label}:{sub}].from_dict_no_raise", False, {"exc": p.ex.exc_class_name(pe.val)}, PROP_REPLAY)
+                if p.ex.then_exc is not None:
+                    u.oblige(p, f"props.roundtrip[{label}:{sub}].from_dict_no_raise", False, {"exc": p.ex.exc_class_name(p.ex.then_exc.val)}, PROP_REPLAY)
                     continue
+                back = p.ex.then_value
                 ok_cls = isinstance(back, VRef) and p.st.cell(back).cls is ci
                 u.oblige(p, f"props.roundtrip[{label}:{sub}]", z3.And(zb(ok_cls), fields_equal(p, p.ex.orig, back, names) if ok_cls else z3.BoolVal(False)), {}, PROP_REPLAY)
             u.cover(f"props.cover[{label}:{sub}]", ps, lambda p: p.kind == "return")
@@ -96,7 +97,7 @@ def props(u: Unit):
         for n, hi in (("_total_thickness", 10000), ("_pixel_vert_size", 1000), ("_pixel_horz_size", 1000), ("_pixel_scale", 1000)):
             if sub == "all":
                 t = z3.Real(n)
-                st.assume(z3.And(t > 0, t <= hi))
+                st.assume(z3.And(t >= 0, t <= hi))          # the class invariant: 0.0 is a valid, DEFINED value
                 out[n] = VFloat(t)
             else:
                 out[n] = NONE
@@ -110,7 +111,7 @@ def props(u: Unit):
         for n, (lo, hi) in rng.items():
             if sub == "all":
                 t = z3.Real(n)
-                st.assume(z3.And(t > lo, t <= hi))
+                st.assume(z3.And(t >= lo, t <= hi))
                 out[n] = VFloat(t)
             else:
                 out[n] = NONE
@@ -157,16 +158,15 @@ def props(u: Unit):
             obj = ex.st.alloc(HObj(ci, env(ex, sub)))
             ex.orig = obj
             return [obj], {}
-        ps = u.paths(td, setup, cfg, label=f"Environment.to_dict[{sub}]")
+        ps = u.paths(td, setup, cfg, label=f"Environment.to_dict[{sub}]", then=lambda ex, v: ex.call_function(VFunc(fd, VClass(ci)), [v], {}, Frame(None, fd.module)))
         for p in ps:
             if p.kind != "return":
                 u.oblige(p, f"props.roundtrip[Environment:{sub}].to_dict_no_raise", False, {}, PROP_REPLAY)
                 continue
-            try:
-                back = p.ex.call_function(VFunc(fd, VClass(ci)), [p.value], {}, Frame(None, fd.module))
-            except PyExc as pe:
-                u.oblige(p, f"props.roundtrip[Environment:{sub}].from_dict_no_raise", False, {"exc": p.ex.exc_class_name(pe.val)}, PROP_REPLAY)
+            if p.ex.then_exc is not None:
+                u.oblige(p, f"props.roundtrip[Environment:{sub}].from_dict_no_raise", False, {"exc": p.ex.exc_class_name(p.ex.then_exc.val)}, PROP_REPLAY)
                 continue
+            back = p.ex.then_value
             o, b = p.st.cell(p.ex.orig).fields, p.st.cell(back).fields
             conds = [zb(p.ex.eq(o["_temperature"], b["_temperature"]))]
             if sub == "multi":
@@ -284,18 +284,17 @@ def data_unit(kind, qual):
             det = mk_full_detector(ex, u, kind)
             ex.orig_parts = dict(ex.det_parts)
             return [det], {}
-        ps = u.paths(td, setup, cfg, max_paths=600, label=f"{kind}.to_dict")
+        ps = u.paths(td, setup, cfg, max_paths=600, label=f"{kind}.to_dict", then=lambda ex, v: ex.call_function(VFunc(fd, VClass(ci)), [v], {}, Frame(None, fd.module)))
         n_ok = 0
         for p in ps:
             if p.kind != "return":
                 u.oblige(p, f"data.roundtrip[{kind}].to_dict_no_raise", False, {"exc": p.exc_name()}, DATA_REPLAY)
                 continue
             orig = p.ex.orig_parts
-            try:
-                back = p.ex.call_function(VFunc(fd, VClass(ci)), [p.value], {}, Frame(None, fd.module))
-            except PyExc as pe:
-                u.oblige(p, f"data.roundtrip[{kind}].from_dict_no_raise", False, {"exc": p.ex.exc_class_name(pe.val)}, DATA_REPLAY)
+            if p.ex.then_exc is not None:
+                u.oblige(p, f"data.roundtrip[{kind}].from_dict_no_raise", False, {"exc": p.ex.exc_class_name(p.ex.then_exc.val)}, DATA_REPLAY)
                 continue
+            back = p.ex.then_value
             n_ok += 1
             bf = p.st.cell(back).fields
             for b in buckets:
@@ -671,17 +670,16 @@ def photon3d_unit(u: Unit):
         ph = ex.instantiate(pci, [], {"geo": geo}, Frame(None, pci.module))
         ex.st.cell(ph).fields["_array"] = cube
         return [ph], {}
-    ps = u.paths(td, setup, cfg, label="Photon.to_dict[3-D]")
+    ps = u.paths(td, setup, cfg, label="Photon.to_dict[3-D]", then=lambda ex, v: ex.call_function(VFunc(fd, VClass(pci)), [], {"geometry": ex.geo, "data": v}, Frame(None, fd.module)))
     n_ok = 0
     for p in ps:
         if p.kind != "return":
             u.oblige(p, "photon3d.to_dict_no_raise", False, {"exc": p.exc_name()}, CUBE_REPLAY)
             continue
-        try:
-            back = p.ex.call_function(VFunc(fd, VClass(pci)), [], {"geometry": p.ex.geo, "data": p.value}, Frame(None, fd.module))
-        except PyExc as pe:
-            u.oblige(p, "photon3d.from_dict_no_raise", False, {"exc": p.ex.exc_class_name(pe.val)}, CUBE_REPLAY)
+        if p.ex.then_exc is not None:
+            u.oblige(p, "photon3d.from_dict_no_raise", False, {"exc": p.ex.exc_class_name(p.ex.then_exc.val)}, CUBE_REPLAY)
             continue
+        back = p.ex.then_value
         n_ok += 1
         u.oblige(p, "photon3d.dictionary_read_is_the_dictionary_written", bool(p.ex.hold.get("from_dict_same")), {}, CUBE_REPLAY)
         got = p.st.cell(back).fields.get("_array") if isinstance(back, VRef) else None
